@@ -336,9 +336,12 @@ Definition entries (t : trie) : list (key * value) :=
 
 (* ====================================================================================
    Repaired functions (fixes/C02-get-diverging-key, C02-delete-diverging-key,
-   C02-keys-prefix-descent): a branch is only descended into when its partial key is a prefix of
-   the remaining key.  The empty-remaining-key behaviour (len(key) == 0 matches any node), which
-   the package's unit tests pin down, is unchanged.
+   C02-keys-prefix-descent, C02-get-exhausted-key-nested, C02-delete-exhausted-key-nested):
+   a branch is only descended into when its partial key is a prefix of the remaining key, and a
+   child with a non-empty partial key is not entered with an exhausted key.  The behaviour of
+   retrieve/deleteAtNode called directly with an empty key (len(key) == 0 matches the node),
+   which the package's unit tests pin down, is unchanged: it is only reachable from the API with
+   the empty storage key.
    ==================================================================================== *)
 Fixpoint get (t : tnode) (k : key) {struct t} : option value :=
   match t with
@@ -354,7 +357,12 @@ Fixpoint get (t : tnode) (k : key) {struct t} : option value :=
          | [] => None
          | oc :: r =>
            match i with
-           | O => match oc with None => None | Some c => get c ck end
+           | O => match oc with
+                  | None => None
+                  | Some c =>
+                    (* the key ends at this child slot and the keys below it are longer *)
+                    if (length ck =? 0) && (0 <? length (node_pk c)) then None else get c ck
+                  end
            | S j => go r j
            end
          end) cs (nth n k 0)
@@ -378,8 +386,10 @@ Fixpoint delete (t : tnode) (k : key) {struct t} : option tnode * bool :=
                    match i with
                    | O => match oc with
                           | None => None
-                          | Some c => let '(nc, d) := delete c ck in
-                                      if d then Some (nc :: r) else None
+                          | Some c =>
+                            if (length ck =? 0) && (0 <? length (node_pk c)) then None
+                            else let '(nc, d) := delete c ck in
+                                 if d then Some (nc :: r) else None
                           end
                    | S j => match go r j with Some r' => Some (oc :: r') | None => None end
                    end
@@ -523,7 +533,14 @@ Fixpoint get_exhausted (t : tnode) (k : key) {struct t} : bool :=
            end
          end) cs (nth n k 0)
   end.
+(* after fixes/C02-get-exhausted-key-nested the class is only reachable at the root: Get of the
+   empty key on a root branch with a non-empty partial key and a value *)
 Definition guard_get_exhausted (t : trie) (k : list byte) : bool :=
+  match k, t with
+  | [], Some (Branch pk (Some _) _) => 0 <? length pk
+  | _, _ => false
+  end.
+Definition guard_get_exhausted_pinned (t : trie) (k : list byte) : bool :=
   match t with None => false | Some n => get_exhausted n (key_le_to_nibbles k) end.
 
 (* finding delete-exhausted-key: same path, deleteLeaf / deleteBranch treat len(key) == 0 as a match *)
@@ -547,6 +564,13 @@ Fixpoint delete_exhausted (t : tnode) (k : key) {struct t} : bool :=
            end
          end) cs (nth n k 0)
   end.
+(* after fixes/C02-delete-exhausted-key-nested: Delete of the empty key on a root leaf with a
+   non-empty partial key, or on a root branch with a non-empty partial key and a value *)
 Definition guard_delete_exhausted (t : trie) (k : list byte) : bool :=
+  match k, t with
+  | [], Some (Leaf pk _) => 0 <? length pk
+  | [], Some (Branch pk (Some _) _) => 0 <? length pk
+  | _, _ => false
+  end.
+Definition guard_delete_exhausted_pinned (t : trie) (k : list byte) : bool :=
   match t with None => false | Some n => delete_exhausted n (key_le_to_nibbles k) end.
-
